@@ -64,6 +64,8 @@ def run(res, replay=None):
                 xl = "shadow"
             if c.get("ea_cleared"):
                 xl = "eacleared"
+            if c.get("special2") and c["rc_n2"] == 0 and not c["probs_n2"]:
+                xl = "special"
             bad.append((rec, why, c["out_n2"], xl))
         else:
             stats["second_run_clean"] += 1
@@ -82,13 +84,26 @@ def run(res, replay=None):
             return "c01:uninit-group-metadata-bit-clear-on-disk"
         if xl == "eacleared":
             return "c01:cleared-inode-keeps-its-attribute-block-reference"
+        if xl == "special":
+            return "c01:special-inode-bad-file-acl"
         if xl and "invalid journal" in out:
             return "c01:journal-cross-linked-superblock-lost"
         return "c01:" + hashlib.sha256(json.dumps(rec["operators"]).encode()).hexdigest()[:12]
-    bad.sort(key=lambda b: 1 if sig(*b) in ("c01:journal-cross-linked-superblock-lost", "c01:second-run-finds-only-leaked-blocks", "c01:uninit-group-metadata-bit-clear-on-disk", "c01:cleared-inode-keeps-its-attribute-block-reference") else 0)
-    for rec, why, out, xl in bad[:3]:
+    bad.sort(key=lambda b: 1 if sig(*b) in ("c01:journal-cross-linked-superblock-lost", "c01:second-run-finds-only-leaked-blocks", "c01:uninit-group-metadata-bit-clear-on-disk", "c01:cleared-inode-keeps-its-attribute-block-reference", "c01:special-inode-bad-file-acl") else 0)
+    listed = {k["signature"] for k in e2v.known_findings() if k["property"] == "C01" and k.get("status") == "known"}
+    shown, unknown = set(), 0
+    for rec, why, out, xl in bad:
+        s_ = sig(rec, why, out, xl)
+        if s_ in listed:
+            if s_ in shown:
+                continue
+            shown.add(s_)
+        else:
+            unknown += 1
+            if unknown > 3:
+                continue
         res.violation("oracle", {"recipe": rec, "note": why, "second_run_output_tail": out[-400:], "journal_blocks_cross_linked_in_input": xl},
-                      signature=sig(rec, why, out, xl))
+                      signature=s_)
     for rec, probs, rc in vbad[:2]:
         res.violation("correspondence", {"recipe": rec, "problem_log": probs, "exit": rc}, signature="c01v:" + hashlib.sha256(json.dumps(rec["operators"]).encode()).hexdigest()[:12])
     if not pr["ok"] and not bad and not vbad:
